@@ -165,7 +165,10 @@ def inject(rng):
                        "attribute-arity", "parameter-after-variadic", "required-after-default", "dependency-arity",
                        "backtick-shebang", "unterminated-interpolation", "unicode-range", "unicode-empty", "unicode-length",
                        "unicode-delimiter", "unicode-character", "unicode-unterminated", "shell-expansion",
-                       "unexpected-character", "include", "inconsistent-whitespace"])
+                       "unexpected-character", "include", "inconsistent-whitespace",
+                       "extraneous-attributes", "circular-recipe", "circular-variable", "export-unexported", "extra-leading-whitespace",
+                       "invalid-attribute", "shebang-and-script", "no-cd-and-working-directory", "exit-message-both",
+                       "unknown-alias-target"])
     if kind == "unknown-start":
         return dict(kind=kind, head=pre_line, token=rng.choice(["~", "\u00e9", "\u4e2d", "\U0001F600", "%", "^", ";", "\u00a0"]), tail=" 'a'" + post_line, error="UnknownStartOfToken")
     if kind == "unterminated-string":
@@ -245,6 +248,29 @@ def inject(rng):
         return dict(kind=kind, head="", token="!", tail="include 'f'", error="Include")
     if kind == "inconsistent-whitespace":
         return dict(kind=kind, head="rr:\n\techo %s\n" % uni(rng), token="  ", tail="echo", error="InconsistentLeadingWhitespace")
+    if kind == "extraneous-attributes":
+        # a block of one to three attribute lines in front of something that cannot carry attributes: the block's first `[`
+        more = "".join(rng.sample(["[group('%s')]\n" % uni(rng).replace("'", ""), "[no-cd]\n", "[doc('%s')]\n" % uni(rng).replace("'", "")], rng.randint(0, 2)))
+        after = rng.choice(["set quiet", "# %s" % uni(rng), "", "unexport ZZ"])
+        return dict(kind=kind, head="", token="[", tail="private]\n" + more + after, error="ExtraneousAttributes")
+    if kind == "circular-recipe":
+        return dict(kind=kind, head="rr a='%s': " % uni(rng).replace("'", ""), token="rr", tail="\n\techo", error="CircularRecipeDependency")
+    if kind == "circular-variable":
+        return dict(kind=kind, head="", token="vv", tail=" := '%s' + vv" % uni(rng).replace("'", ""), error="CircularVariableDependency")
+    if kind == "export-unexported":
+        return dict(kind=kind, head="unexport VV\n# %s\nexport " % uni(rng), token="VV", tail=" := 'x'", error="ExportUnexported")
+    if kind == "extra-leading-whitespace":
+        return dict(kind=kind, head="rr:\n\techo %s\n\t" % uni(rng), token=" echo b", tail="", error="ExtraLeadingWhitespace")
+    if kind == "invalid-attribute":
+        return dict(kind=kind, head="[extension('.%s')]\n" % rng.choice(["x", "py"]), token="rr", tail=":\n\techo", error="InvalidAttribute")
+    if kind == "shebang-and-script":
+        return dict(kind=kind, head="[script]\n", token="rr", tail=":\n\t#!/bin/sh\n\techo", error="ShebangAndScriptAttribute")
+    if kind == "no-cd-and-working-directory":
+        return dict(kind=kind, head="[no-cd]\n[working-directory('%s')]\n" % uni(rng).replace("'", ""), token="rr", tail=":\n\techo", error="NoCdAndWorkingDirectoryAttribute")
+    if kind == "exit-message-both":
+        return dict(kind=kind, head="[exit-message]\n[no-exit-message]\n", token="rr", tail=":\n\techo", error="ExitMessageAndNoExitMessageAttribute")
+    if kind == "unknown-alias-target":
+        return dict(kind=kind, head="alias ", token="aa", tail=" := nosuch", error="UnknownAliasTarget")
     raise AssertionError(kind)
 
 
